@@ -21,7 +21,7 @@ REQUIRED = {"executions": {"quick": 300, "thorough": 300}, "rollout_entries": {"
             "forced_in_rollout": {"quick": 4, "thorough": 20}, "build_ic_set": {"quick": 30, "thorough": 60}}
 REQUIRED_TAPS = {"book:traced": 1000}
 ASSUMPTIONS = ["RepeatedStepper vs n applications is judged on Nyquist-free states when N is even and the inner stepper has odd-order linear terms (the property's precondition)"]
-TIMEOUT = {"quick": 900, "thorough": 2400}
+TIMEOUT = {"quick": 2400, "thorough": 7200}
 K = 10
 PYTREES = ["array", "tuple", "dict", "mixed_dtype"]
 
